@@ -347,6 +347,7 @@ class IrToPythonCompiler:
 
         This is a non-optimal, but always working strategy.
         """
+        self.emit("_irpy_stack_mark = len(rt.stack)")
         self.emit("_irpy_prev_block = None")
         self.emit(f"_irpy_current_block = '{ir_function.entry.name}'")
         self.emit("while True:")
@@ -375,7 +376,9 @@ class IrToPythonCompiler:
             self.emit(f"{phi_names} = {value_names}")
 
     def reset_stack(self):
-        self.emit(f"rt.free({self.stack_size})")
+        # Free what the executed path allocated since function entry. The sum
+        # of the alloca sizes of the textually preceding blocks is not that.
+        self.emit("rt.free(len(rt.stack) - _irpy_stack_mark)")
         self.stack_size = 0
 
     def emit_jump(self, block: ir.Block, target: ir.Block):
